@@ -364,9 +364,14 @@ class CSSSerializer:
 
     def _linenumnbers(self, text):
         if self.prefs.lineNumbers:
-            pad = len(str(text.count(self.prefs.lineSeparator) + 1))
+            if self.prefs.lineSeparator:
+                lines = text.split(self.prefs.lineSeparator)
+            else:
+                # without a line separator the sheet is a single line
+                lines = [text]
+            pad = len(str(len(lines)))
             out = []
-            for i, line in enumerate(text.split(self.prefs.lineSeparator)):
+            for i, line in enumerate(lines):
                 out.append(('%*i: %s') % (pad, i + 1, line))
             text = self.prefs.lineSeparator.join(out)
         return text
